@@ -12,6 +12,7 @@ from __future__ import annotations
 
 import importlib
 import json
+import os
 import sys
 import traceback
 
@@ -164,6 +165,33 @@ class NativeVC:
 
     def fields(self, obj):
         return dict(vars(obj))
+
+    _ATTR_READS = None
+
+    def attr_is_read(self, name):
+        """native twin of vc.attr_is_read: scans the package's source"""
+        import ast as _ast
+        import glob
+
+        if NativeVC._ATTR_READS is None:
+            import someip
+
+            cache = set()
+            for path in glob.glob(os.path.join(os.path.dirname(someip.__file__), "*.py")):
+                with open(path) as f:
+                    tree = _ast.parse(f.read())
+                for n in _ast.walk(tree):
+                    if isinstance(n, _ast.Attribute) and isinstance(n.ctx, _ast.Load):
+                        cache.add(n.attr)
+                    elif isinstance(n, _ast.Call) and isinstance(n.func, _ast.Name) and n.func.id in ("getattr", "hasattr"):
+                        if len(n.args) >= 2 and isinstance(n.args[1], _ast.Constant) and isinstance(n.args[1].value, str):
+                            cache.add(n.args[1].value)
+                        else:
+                            cache.add("*")
+                    elif isinstance(n, _ast.Call) and isinstance(n.func, _ast.Name) and n.func.id == "vars":
+                        cache.add("*")
+            NativeVC._ATTR_READS = cache
+        return name in NativeVC._ATTR_READS or "*" in NativeVC._ATTR_READS
 
     # ---- frames: native twin of pyvc.loopcut.heap_snapshot / frame_violations
     @staticmethod
